@@ -4,6 +4,7 @@ import ColoVerif.Gen.ApiExpansion
 import ColoVerif.Gen.WriteSets
 import ColoVerif.Proofs.BusyLemmas
 import ColoVerif.Proofs.BusySizes
+import ColoVerif.Proofs.NetsValue
 import ColoVerif.Model.LegacyBusy
 import ColoVerif.Properties.C01
 /-
@@ -359,5 +360,70 @@ example : ¬ SizesConsistent (Sz.ofList [3, 3, 3, 3, 3, 4, 3, 3, 1, 0, 0, 0, 0, 
   rw [← consistent_iff]; decide
 
 end Sizes
+
+/-! ## Net arrays: the VALUE clauses of "internally consistent"
+
+`Model/NetsValue.lean` is the constructor, `Circuit::addNet` and `Circuit::setNets` on the values of `netLimits_` and
+`pinCells_` (and the lengths of the offset / weight vectors), statement for statement; `drv_C10` runs it against the
+real object on histories of valid and malformed calls (`nv*` lines: outcome, both arrays and the three lengths compared
+after every call).  `Wf` is the value invariant; the 13th clause of `Circuit::check()` is its `front` field. -/
+section Nets
+open ColoVerif.NetsValue
+
+/-- The constructor establishes the value invariant (for every cell count the constructor accepts — and the others). -/
+theorem nets_wf_constructor (n : Int) : Wf (NetsValue.init n) := init_wf n
+
+/-- An accepted `addNet` — any cells, any offset lengths — keeps the invariant. -/
+theorem nets_wf_addNet (s s' : Nets) (cells : List Int) (nxo nyo : Nat) (h : Wf s)
+    (hr : addNet s cells nxo nyo = some s') : Wf s' := addNet_wf h hr
+
+/-- An accepted `setNets` establishes the invariant whatever the circuit held before (no hypothesis on `s`). -/
+theorem nets_wf_setNets (s s' : Nets) (limits cells : List Int) (nxo nyo nwt : Nat)
+    (hr : setNets s limits cells nxo nyo nwt = some s') : Wf s' := setNets_wf hr
+
+/-- A refused net call changes nothing (in the model the refusal precedes every write; the driver compares the real
+arrays after every refused call). -/
+theorem refused_net_call_changes_nothing (s : Nets) (o : Op) (h : apply? s o = none) : step s o = s := by
+  simp [step, h]
+
+/-- **After any history** of `addNet` / `setNets` calls, accepted or refused, with any arguments, the net arrays are
+well formed: `netLimits_` starts at 0 (the 13th clause of `check()`), is non-decreasing and ends at `pinCells_.size()`,
+every pin names an existing cell, and the offset / weight vectors have matching lengths. -/
+theorem nets_wf_after_any_history (n : Int) (ops : List Op) : Wf (run (NetsValue.init n) ops) :=
+  run_wf (init_wf n) ops
+
+/-- The 13th clause of `Circuit::check()`, `netLimits_.front() == 0`, after any history. -/
+theorem check_front_clause_holds (n : Int) (ops : List Op) :
+    (run (NetsValue.init n) ops).limits.head? = some 0 := (nets_wf_after_any_history n ops).front
+
+/-- **Every read the net getters make is in bounds and names an existing cell**, after any history: for every net
+`net < nbNets()` the pin count is non-negative and for every `i < nbPinsNet(net)` the index `netLimits_[net] + i` used
+by `pinCell` / `pinXOffset` / `pinYOffset` lies inside the per-pin vectors and `pinCell(net, i)` is a cell of the
+circuit. -/
+theorem net_getters_in_range (n : Int) (ops : List Op) (net : Nat)
+    (hn : (net : Int) < nbNets (run (NetsValue.init n) ops)) :
+    0 ≤ nbPinsNet (run (NetsValue.init n) ops) net ∧
+    ∀ i : Nat, (i : Int) < nbPinsNet (run (NetsValue.init n) ops) net →
+      0 ≤ pinIndex (run (NetsValue.init n) ops) net i ∧
+      pinIndex (run (NetsValue.init n) ops) net i < (run (NetsValue.init n) ops).pins.length ∧
+      (run (NetsValue.init n) ops).nx = (run (NetsValue.init n) ops).pins.length ∧
+      (run (NetsValue.init n) ops).ny = (run (NetsValue.init n) ops).pins.length ∧
+      0 ≤ pinCell (run (NetsValue.init n) ops) net i ∧ pinCell (run (NetsValue.init n) ops) net i < n := by
+  have hw := nets_wf_after_any_history n ops
+  have hc : (run (NetsValue.init n) ops).nbCells = n := run_nbCells _ ops
+  obtain ⟨h0, hi⟩ := getters_in_range hw net hn
+  refine ⟨h0, fun i hlt => ?_⟩
+  obtain ⟨a, b, c, d⟩ := hi i hlt
+  exact ⟨a, b, hw.xLen, hw.yLen, c, by rw [hc] at d; exact d⟩
+
+/-- Non-vacuity: a history with a refused `addNet` (pin 5 of 3 cells), two accepted ones, a refused `setNets` (limits
+not starting at 0) and an accepted one; the result has 2 nets, 3 pins. -/
+example : run (NetsValue.init 3) [.add [0, 5] 2 2, .add [0, 2] 2 2, .add [1] 1 1, .set [1, 2] [0, 1] 2 2 0,
+      .set [0, 1, 3] [2, 0, 1] 3 3 0]
+    = ⟨3, [0, 1, 3], [2, 0, 1], 3, 3, 2⟩ := by decide
+/-- … and the invariant is not trivially true: limits that do not start at 0, or a pin naming no cell, violate it. -/
+example : ¬ Wf ⟨3, [1, 2], [0], 1, 1, 1⟩ ∧ ¬ Wf ⟨3, [0, 1], [3], 1, 1, 1⟩ := by decide
+
+end Nets
 
 end ColoVerif.C10
